@@ -1,4 +1,4 @@
 """Manifest-level constants. Per-property wording lives in lib/cfg/Cxx.py (TEXT)."""
 from props import TEXT  # noqa: F401
-HOOK_COMMITS = ["2ecfd70", "eac145e"]
+HOOK_COMMITS = ["2ecfd70", "eac145e", "8d88dc1"]
 NOT_YET = {}
